@@ -98,6 +98,7 @@ fn checksum_part(rep: &Reporter, args: &Args) {
     let results = common::parallel(n, move |shard, nshards| {
         let mut local = Local::default();
         let mut bad = BTreeMap::new();
+        let mut samples: Vec<Value> = vec![];
         let mut r = Rng::derive(seed, 0xc11, shard as u64);
         // raw function vs reference on arbitrary byte strings (all lengths 0..1500 cycle through)
         let mut idx = shard as u64;
@@ -148,15 +149,17 @@ fn checksum_part(rep: &Reporter, args: &Args) {
             data[n - 1] = w as u8;
             let img = pure::echo_serialize(false, id, seq, Bytes::from(data.clone()));
             local.evals += 1;
+            if k < 2 { samples.push(json!({"kind":"constructed double-carry echo image","id":id,"seq":seq,"data_len":data.len(),"image_prefix_hex":common::hex(&img[..16]),"ones_complement_sum_of_image":format!("{:#06x}", ones_sum(&img))})); }
             local.tally("checksum: constructed double-carry images", 1);
             check_echo_image(false, id, seq, &data, &img, &mut bad, &mut local, "constructed double-carry");
             local.distinct.push(common::fnv(&img));
             k += nshards as u64;
         }
-        (local, bad)
+        (local, bad, samples)
     });
-    for (local, bad) in results {
+    for (local, bad, samples) in results {
         for (s, d) in bad { rep.violation(&s, d); }
+        for s in samples { rep.sample(s); }
         local.merge_into(rep);
     }
 }
